@@ -56,6 +56,8 @@ func (Keeper).addGrant
             && Sum(grantVestingPeriods, len(grantVestingPeriods)) == grantCoins ==> ValidCVA(*va)
     ensures funder: va.FunderAddress == old(va.FunderAddress) && va.BaseVestingAccount == old(va.BaseVestingAccount)
     ensures failed: result != nil ==> *va == old(*va) && *va.BaseVestingAccount == old(*va.BaseVestingAccount)
+    // both merged schedules start at min(account start, grant start): the "start times differ" error is dead code
+    unreachable return: return errorsmod.Wrapf(
 
 // C11 (and C09): applying a schedule to an account keeps every release event of the granted coins at the
 // absolute time it has in the schedule anchored at startTime - nothing unlocks or vests earlier - and
